@@ -128,7 +128,7 @@ def audit(prop):
         src.append('Goal True. idtac "@@THM %s". exact I. Qed.' % n)
         src.append('Print Assumptions %s.' % n)
     src.append('Goal True. idtac "@@END". exact I. Qed.')
-    path = os.path.join(AUDITDIR, 'Audit_%s.v' % prop)
+    path = os.path.join(AUDITDIR, 'Audit_%s_p%d.v' % (prop, os.getpid()))
     with open(path, 'w') as f:
         f.write('\n'.join(src) + '\n')
     rc, out = sh('timeout 300 coqc -Q %s JugV %s' % (COQ, path), cwd=AUDITDIR, timeout=330)
@@ -304,7 +304,7 @@ class Check:
         files = []
         shards = [cases[i:i + shard] for i in range(0, len(cases), shard)]
         for k, sh_cases in enumerate(shards):
-            path = os.path.join(CASEDIR, 'Cases_%s_%s_%d.v' % (self.prop, name, k))
+            path = os.path.join(CASEDIR, 'Cases_%s_%s_%d_p%d.v' % (self.prop, name, k, os.getpid()))
             with open(path, 'w') as f:
                 f.write('From Coq Require Import List ZArith Bool String.\nImport ListNotations.\n')
                 f.write('From JugV Require Import Model.CaseLib.\n')
